@@ -87,7 +87,8 @@ class MATCHLinear(nn.Linear, MATCHModule):
             self.s_y = torch.tensor(1., device=self.device)
             self.last_layer = True
 
-        # Copy and integerize pretrained biases
+        # Copy and integerize pretrained biases (a missing bias is an all-zero one)
+        int_bias = torch.zeros(self.out_features, device=self.device)
         with torch.no_grad():
             if linear.bias is not None:
                 self.b_quantizer.dequantize = False
@@ -102,7 +103,7 @@ class MATCHLinear(nn.Linear, MATCHModule):
                     int_bias = int_bias * self.scale
                 self.add_bias = int_bias.view(1, self.out_features)
             else:
-                self.add_bias = None
+                self.add_bias = torch.zeros((1, self.out_features), device=self.device)
 
         # Done here to avoid the reshape op in fwd
         self.scale = self.scale.view(1, self.out_features)
